@@ -103,6 +103,12 @@ def caps_for(date, params, res, df):
     kzmax = params.get("kinderzuschl", {}).get("maximum")
     if isinstance(kzmax, (int, float)) and "anz_personen_bg" in res:
         out.append(("Kinderzuschlag <= maximum per child x persons of the needs unit", "_kinderzuschl_vor_vermög_check_m_bg", 1.0, float(kzmax) * res["anz_personen_bg"].to_numpy().astype(float), 0.01))
+    # ---- Grundrentenzuschlag: bonus points x (at most the maximum number of months) x pension value x (at most the maximum factor)
+    gr = params.get("ges_rente", {})
+    if all(x in res for x in ("grundr_zuschlag_bonus_entgeltp", "rentenwert")) and isinstance(gr.get("grundr_zeiten"), dict) and "grundr_zugangsfaktor_max" in gr:
+        capg = res["grundr_zuschlag_bonus_entgeltp"].to_numpy().astype(float) * float(gr["grundr_zeiten"]["max"]) * res["rentenwert"].to_numpy().astype(float) * float(gr["grundr_zugangsfaktor_max"])
+        out.append(("Grundrentenzuschlag <= bonus points x maximum months x pension value x maximum factor", "grundr_zuschlag_vor_eink_anr_m", 1.0, capg, 0.01))
+        out.append(("Grundrentenzuschlag paid <= before income crediting", "grundr_zuschlag_m", 1.0, "grundr_zuschlag_vor_eink_anr_m", 0.01))
     # ---- transfers against the assessed need / entitlement
     out.append(("ALG II before priority <= assessed need", "arbeitsl_geld_2_vor_vorrang_m_bg", 1.0, "arbeitsl_geld_2_regelbedarf_m_bg", 1e-6))
     if "arbeitsl_geld_2_regelbedarf_m_bg" in res and "_grunds_im_alter_mehrbedarf_schwerbeh_g_m_eg" in res:
@@ -169,7 +175,13 @@ def corner_population(date, rnd, tid):
                 p["alter"] = rnd.choice([67, 80, 100])
                 p["geburtsjahr"] = gs.year_of(date) - p["alter"]
                 p["rentner"] = True
-                p["jahr_renteneintr"] = p["geburtsjahr"] + 65
+                # retirement before, at and well after the standard age (access factor below, at and above one); long insurance
+                # records with few points (Grundrente range)
+                p["jahr_renteneintr"] = p["geburtsjahr"] + rnd.choice([63, 65, 67, 70])
+                p["grundr_zeiten"] = rnd.choice([396, 420, 480])
+                p["grundr_bew_zeiten"] = rnd.choice([396, 420, 480])
+                p["grundr_entgeltp"] = rnd.choice([8.0, 14.0, 20.0])
+                p["entgeltp_west"] = rnd.choice([8.0, 14.0, 20.0])
                 p["bruttolohn_m"] = 0.0
     if mode == "many_children":
         a = popgen.rec(partner=2, spouse=2, gv=True)
